@@ -282,6 +282,23 @@ def ref_dfs_pre(G, s, mem, d, unk, f):
     return out
 
 
+def ref_dfs_pre_iter(G, s, mem, d, unk, f):
+    """Recursive pre-order computed WITHOUT recursion (explicit stack of neighbour iterators), for deep graphs."""
+    out = [s]
+    seen = {s}
+    stack = [iter(ref_neighbors(G, s, d, unk, f))]
+    while stack:
+        for w in stack[-1]:
+            if (mem is None or w in mem) and w not in seen:
+                seen.add(w)
+                out.append(w)
+                stack.append(iter(ref_neighbors(G, w, d, unk, f)))
+                break
+        else:
+            stack.pop()
+    return out
+
+
 def ref_dfs_stack(G, s, mem, d, unk, f):
     out = []
     stack = [s]
